@@ -61,6 +61,53 @@ Definition malformed_doc (j : json) : bool :=
 Definition malformed (b : body) : bool :=
   match b with BadSyntax => true | Doc j => malformed_doc j end.
 
+(* ---- a second class of requests that must reach no client -----------------------------------
+   "In call state of all participants changed" (API documentation):
+       {"type": "incall", "incall": {"incall": new-incall-state, "all": true}}
+   The new state is the flags value: a number, or (older Talk) a boolean.  A
+   request of this form whose "incall" member is missing, null, a string, a list,
+   an object, a number with a fractional part or an integer that does not fit 64
+   bits names no state: it is malformed in the sense of the property's last
+   sentence ("a malformed request causes no event to be sent to clients") although
+   the server answers it with 200 rather than 400 - which is why it is a class of
+   its own next to [malformed] (whose theorem also promises the 400).
+   Judged only when the document has a single "incall" sub-object with a single
+   "all": true and at most one "incall" member (repeated names are not judged). *)
+Definition float_integral (m e : Z) : bool :=
+  ((0 <=? e) || ((m mod (10 ^ (- e))) =? 0))%Z.
+
+Definition unreadable_flags (ic : members) : bool :=
+  match occurrences "incall" ic with
+  | [] => true
+  | [JNum z] => negb ((- 2 ^ 63 <=? z) && (z <=? 2 ^ 63 - 1))%Z
+  | [JFloat m e] => negb (float_integral m e)
+  | [JBool _] => false
+  | [_] => true
+  | _ => false
+  end.
+
+Definition incall_all_unreadable (j : json) : bool :=
+  match j with
+  | JObj ms =>
+      match effective_type ms with
+      | Some ty =>
+          String.eqb ty "incall" &&
+          match occurrences "incall" ms with
+          | [JObj ic] =>
+              match occurrences "all" ic with
+              | [JBool true] => unreadable_flags ic
+              | _ => false
+              end
+          | _ => false
+          end
+      | None => false
+      end
+  | _ => false
+  end.
+
+Definition names_no_state (b : body) : bool :=
+  match b with BadSyntax => false | Doc j => incall_all_unreadable j end.
+
 (* ---- observations of the implementation ---------------------------------------------------- *)
 (* what the harness saw for one request: HTTP status (0 = the connection was closed
    without a reply), did the process die, did the server answer the probes sent
@@ -72,12 +119,15 @@ Definition mkobs (status : Z) (died responsive closed : bool) (evs : list evkind
 Definition trace := list (body * iobs).
 
 (* the property, per request: answered with 2xx or 4xx, server running and
-   responsive afterwards, and a malformed request reached no client *)
+   responsive afterwards, and a malformed request reached no client - neither
+   one the server refuses (malformed) nor an "incall all" request that names no
+   state (names_no_state) *)
 Definition P_one (b : body) (o : iobs) : bool :=
   let c := i_status o in
   (((200 <=? c) && (c <? 300)) || ((400 <=? c) && (c <? 500)))%Z &&
   negb (i_died o) && i_responsive o &&
-  (negb (malformed b) || match i_events o with [] => true | _ => false end).
+  (negb (malformed b) || match i_events o with [] => true | _ => false end) &&
+  (negb (names_no_state b) || match i_events o with [] => true | _ => false end).
 
 Definition P_C11 (tr : trace) : bool := forallb (fun e => P_one (fst e) (snd e)) tr.
 
